@@ -30,7 +30,7 @@ pub mod net {
     use std::time::{Duration, Instant};
     use tokio::io::{AsyncReadExt, AsyncWriteExt};
 
-    pub const HTTP_TIMEOUT: Duration = Duration::from_secs(60);
+    pub const HTTP_TIMEOUT: Duration = Duration::from_secs(120);
 
     pub fn isolate_env() {
         static ONCE: std::sync::OnceLock<()> = std::sync::OnceLock::new();
@@ -412,8 +412,12 @@ async fn run_on(world: &World, c: &Value, h: &ServerHandle, ready: bool) -> Valu
     let resp = if c["body"]["k"] == "huge" {
         match tolerant_post(&addr, &format!("{path}?{q}"), &body).await { Some(r) => r, None => return json!({"transport_error": "no response to an oversized request"}) }
     } else {
-        match http_client::request(&addr, "POST", &format!("{path}?{q}"), Some("text/plain; charset=utf-8"), Some(&body), HTTP_TIMEOUT).await {
-            Ok(r) => r, Err(e) => return json!({"transport_error": e.to_string()}) }
+        // one retry when the whole exchange timed out (the sandbox is shared; requests here are idempotent reads)
+        let mut attempt = http_client::request(&addr, "POST", &format!("{path}?{q}"), Some("text/plain; charset=utf-8"), Some(&body), HTTP_TIMEOUT).await;
+        if matches!(&attempt, Err(e) if e.kind() == std::io::ErrorKind::TimedOut) {
+            attempt = http_client::request(&addr, "POST", &format!("{path}?{q}"), Some("text/plain; charset=utf-8"), Some(&body), HTTP_TIMEOUT).await;
+        }
+        match attempt { Ok(r) => r, Err(e) => return json!({"transport_error": e.to_string()}) }
     };
     let mut out = json!({"status": resp.status, "distributed": resp.header("x-qe-distributed"), "skipped": resp.header("x-qe-distributed-skipped"),
         "rows_hdr": resp.header("x-qe-rows"), "ctype": resp.header("content-type"), "shards": resp.header("x-qe-shards"),
